@@ -2680,20 +2680,29 @@ ABTU_ret_err int ABTI_thread_handle_request_migrate(ABTI_global *p_global,
         ABTI_thread_get_mig_data(p_global, p_local, p_thread, &p_mig_data);
     ABTI_CHECK_ERROR(abt_errno);
 
+    /* Unset the migration request.  This must be done before reading
+     * p_migration_pool: a new migration request that arrives while this request
+     * is being processed (e.g., while the callback function is running) sets
+     * the request again and is processed at the next scheduling point.
+     * Otherwise, such a request would be acknowledged but never processed. */
+    ABTI_thread_unset_request(p_thread, ABTI_THREAD_REQ_MIGRATE);
+
     /* Extracting an argument embedded in a migration request. */
     ABTI_pool *p_pool =
         ABTD_atomic_relaxed_load_ptr(&p_mig_data->p_migration_pool);
 
     /* Change the associated pool */
     abt_errno = ABTI_thread_set_associated_pool(p_global, p_thread, p_pool);
-    ABTI_CHECK_ERROR(abt_errno);
+    if (ABTI_IS_ERROR_CHECK_ENABLED && abt_errno != ABT_SUCCESS) {
+        /* Keep the request so that it is tried again. */
+        ABTI_thread_set_request(p_thread, ABTI_THREAD_REQ_MIGRATE);
+        ABTI_HANDLE_ERROR(abt_errno);
+    }
     /* Call a callback function */
     if (p_mig_data->f_migration_cb) {
         ABT_thread thread = ABTI_thread_get_handle(p_thread);
         p_mig_data->f_migration_cb(thread, p_mig_data->p_migration_cb_arg);
     }
-    /* Unset the migration request. */
-    ABTI_thread_unset_request(p_thread, ABTI_THREAD_REQ_MIGRATE);
     return ABT_SUCCESS;
 }
 
